@@ -472,6 +472,20 @@ def _const_range(idx):
 
 # ------------------------------------------------------------------ tables
 
+def site_facts(s):
+    """the comparisons / predicates that dominate a site, rendered with local names replaced by their types"""
+    return sorted({norm_text(s.tymap, " ".join(map(str, f[1:]))) for f in s.facts if f[0] in ("cmp", "pred", "range", "letpat")})
+
+
+def entry_lapsed(e, s):
+    """a reviewed entry records the guards that dominated the site when it was reviewed; if one of them no longer dominates the
+    site the review no longer applies (None = still valid, else the reason)"""
+    want = e.get("facts") or []
+    have = set(site_facts(s))
+    gone = [f for f in want if f not in have]
+    return None if not gone else "guard(s) %s that dominated the site when it was reviewed are gone" % gone
+
+
 def load_table(name):
     p = os.path.join(os.path.dirname(os.path.dirname(os.path.dirname(os.path.abspath(__file__)))), "tables", name)
     if not os.path.exists(p):
@@ -505,15 +519,17 @@ def run_census(ck, P, rule, entries, table, scope_note="", classify=None):
                 ck.ok(rule, s.key, "auto: " + why, s.loc)
                 continue
             e = table.get(s.key)
-            if e is not None:
+            lapsed = entry_lapsed(e, s) if e is not None else None
+            if e is not None and lapsed is None:
                 used.add(s.key)
                 stats["reviewed"] += 1
                 ck.ok(rule, s.key, "reviewed: " + e["reason"], s.loc)
                 continue
             stats["violation"] += 1
             chain = P.chain(seen, fq)
-            ck.violation(rule, s.key, "panic-capable %s site `%s` reachable from %s (via %s)%s" % (
-                s.kind, s.desc, chain[0].rsplit("::", 1)[-1], " -> ".join(c.rsplit("::", 1)[-1] for c in chain[-4:]), scope_note), s.loc)
+            ck.violation(rule, s.key, "panic-capable %s site `%s` reachable from %s (via %s)%s%s" % (
+                s.kind, s.desc, chain[0].rsplit("::", 1)[-1], " -> ".join(c.rsplit("::", 1)[-1] for c in chain[-4:]), scope_note,
+                " (reviewed entry lapsed: %s)" % lapsed if lapsed else ""), s.loc)
     ck.note("%s: %d reachable bodies, %d sites: %s; %d reviewed-table entries unused (lapsed or unreachable)" % (
         rule, len(seen), n_sites, stats, len(set(table) - used)))
     return seen, n_sites, stats
